@@ -152,6 +152,14 @@ def plan(tier, seed):
                     "events": names, "seed": seed,
                     "profile": {"x64": True, "devices": D}, "part": "pmap",
                     "weight": 4})
+  # jax_enable_x64 switched on after the library was imported: the roots are
+  # still documented to be computed in float64 (a small ridge on the
+  # rank-deficient statistics of these trees makes float32 roots visible)
+  for c in [{"matrix_epsilon": 1e-9}, {"matrix_epsilon": 1e-9, "eigh": True}]:
+    tasks.append({"name": "%s|T1|rep|x64late" % cfg_name(c), "cfg": c,
+                  "tree": "T1", "mode": "rep", "depth": 3, "events": names,
+                  "seed": seed, "profile": {"x64": True, "x64_late": True},
+                  "part": "x64_late", "weight": 1})
   if tier != "quick":
     for c in [{}, {"beta2": 1.0}, {"precondtioner_type": 2,
                                     "best_effort_shape_interpretation": False}]:
